@@ -369,6 +369,8 @@ def run(ctx, anchors=None):
     # having decided them has a different condition set
     from . import c03_setup
     c03_setup.check_control_size(ctx, fb, prog)
+    ctx.rule("R05.4", "a session that was handed the commitment check cannot be finished before the check has run (shared with C03 R03.3)")
+    c03_setup.check_commitment_not_skipped(ctx, fb, prog, rule="R05.4")
     # ---- R05.3
     stepper = fb.fn("StepScript", file="debugger/interpreter.cpp")
     # the hash handed on for signing is the leaf hash as computed at construction: through the sink pointer, or kept by value
@@ -438,6 +440,7 @@ def size_pred_is(n):
 
 
 MUTANTS = [
+    dict(name="commitment-skipped-for-empty-script", file="instance.cpp", find="    env->done &= successor_script.size() == 0 && !tce;\n", replace="    env->done &= successor_script.size() == 0;\n", expect=["R05.4:pending-commitment-not-done"]),
     dict(name="step-swaps-branch-operands", file="debugger/interpreter.cpp", find="            ss_branch << m_k << node;", replace="            ss_branch << node << m_k;", expect=["R05.1:fold:then"]),
     dict(name="step-node-offset-off-by-one", file="debugger/interpreter.cpp", find="Span<const unsigned char> node(m_control.data() + TAPROOT_CONTROL_BASE_SIZE + TAPROOT_CONTROL_NODE_SIZE * m_i, TAPROOT_CONTROL_NODE_SIZE);",
          replace="Span<const unsigned char> node(m_control.data() + TAPROOT_CONTROL_BASE_SIZE - 1 + TAPROOT_CONTROL_NODE_SIZE * m_i, TAPROOT_CONTROL_NODE_SIZE);", expect=["R05.1:fold:slice"]),
